@@ -42,6 +42,7 @@ MIN_REACH = {
     "merges_widening_a_narrow_stored_axis": {"quick": 6, "thorough": 100},
     "second_merges_giving_precedence_to_stored_complex_data": {"quick": 10, "thorough": 150},
     "megabyte_datasets_saved_loaded_and_saved_over": {"quick": 3, "thorough": 10},
+    "names_given_as_path_objects": {"quick": 50, "thorough": 800},
     "listings_checked": {"quick": 500, "thorough": 8000},
     "harvester_name_checks": {"quick": 50, "thorough": 800},
     "harvester_deletes_with_backup": {"quick": 12, "thorough": 200},
@@ -219,6 +220,11 @@ def run_case(ctx, case):
         os.makedirs(tmp)
         ctx.count("directories_whose_name_contains_an_extension")
     path = os.path.join(tmp, case["name"])
+    if case["dseed"] % 5 == 1:
+        # the name is given as a pathlib.Path (what Path(project) / "data" gives), not as a str: the same file
+        import pathlib
+        path = pathlib.Path(path)
+        ctx.count("names_given_as_path_objects")
     want_file = case["name"] if case["has_ext"] else case["name"] + EXT[engine]
     sig = {"api": case["mode"], "engine": engine, "has_ext": case["has_ext"]}
     ds = build(case)
